@@ -64,7 +64,7 @@ pub fn plans() -> Vec<Plan> {
             engine: "world",
             level: "exploration",
             quick_runs: 20_000,
-            thorough_runs: 1_200_000,
+            thorough_runs: 800_000,
             rule: "one run = one faulty module (each stand-alone fault kind of the pool, incl. every name-clash shape) with up to 8 accompanying declarations, optionally one that reuses the faulty declaration's name; variants: the faulty file alone (reference), the company alone (reference for 'company is valid'), and 6 (quick) / 12 (thorough) compositions chosen by the scheduler: faulty file among 0-4 accompanying files or faulty declarations placed inside shared files, argv list/directory/mixture, readdir permutation, hash seed, cli::check or Project API. distinct = distinct trace JSON; non-trivial = the alone-run fails (or the world is a name clash), i.e. the metamorphic oracle applied.",
             assumptions: &[
                 "the analyzer's verdict on the faulty file alone is the reference; worlds whose faulty file does not fail alone are discarded (counted)",
@@ -115,7 +115,7 @@ pub fn plans() -> Vec<Plan> {
             engine: "lsp",
             level: "exploration",
             quick_runs: 8420 + 2580,
-            thorough_runs: 168_420 + 831_580,
+            thorough_runs: 168_420 + 331_580,
             rule: "runs 0..8419 (quick) / 0..168419 (thorough) enumerate every notification sequence of length <=3 / <=4 over 2 URIs x 5 document classes (valid, lexical error, syntax error, semantic error, depends-on-other-document) x {didOpen, didChange}; the remaining runs are random histories of up to 40 events over 2-4 URIs and generated cross-referencing documents with crash/restart, duplicated delivery, 0/2-change didChange, stale versions and an optional workspace folder. After every didOpen/didChange step three oracles run: exactly one publishDiagnostics(uri, version); equality with a freshly started server (new OS randomness) that opens the current contents; containment equality with the real cli::check on a directory holding the same contents. distinct = distinct trace JSON; non-trivial = at least one edit event.",
             assumptions: &[
                 "documents are ASCII so that byte, char and UTF-16 columns coincide",
